@@ -411,7 +411,12 @@ def emit(design, connect_order=None, connect_style=None, block_order=None):
     # module-level names that coincide with block-local loop variables / closure constants (python scoping: local > closure > global)
     L += [f"{nm_} = {val}" for nm_, val in design["shadow_globals"]] + [""]
   for tn, fields in design["types"].items():
-    L += ["@bitstruct", f"class {tn}:"] + [f"  {fn}: {type_text(ft)}" for fn, ft in fields] + [""]
+    L += ["@bitstruct", f"class {tn}:"] + [f"  {fn}: {type_text(ft)}" for fn, ft in fields]
+    dfl = design.get("type_defaults", {}).get(tn)
+    if dfl:
+      L.append("  def __init__(s, " + ", ".join(f"{fn}={dfl[fn]}" for fn, ft in fields) + "):")
+      L += [f"    s.{fn} = {type_text(ft)}({fn})" for fn, ft in fields]
+    L.append("")
   for cn in design["order"]:
     c = design["classes"][cn]
     L += [f"class {cn}({design.get('bases', {}).get(cn, 'Component')}):", "  def construct(s):"]
@@ -678,6 +683,15 @@ class Gen:
       fields.pop()
       if not fields:
         fields.append(["a", 8])
+    if rng.random() < self.k.get("p_struct_init", 0):
+      # two Bits fields whose total width is one of the common plain widths (a struct net next to a Bits net of equal width)
+      tot = rng.choice([2, 4, 8, 16])
+      a = rng.randrange(1, tot)
+      fields[:] = [[names[0], a], [names[1], tot - a]]
+    if all(isinstance(ft, int) for _, ft in fields) and self.k.get("p_struct_init", 0):
+      # a user-written __init__ with NON-ZERO default field values (the generated one is then not added): the default value of
+      # every signal of this type is non-zero
+      d.setdefault("type_defaults", {})[tn] = {fn: (rng.getrandbits(ft) or 1) for fn, ft in fields}
     return ["struct", tn]
 
   def sig_type(self):
